@@ -70,7 +70,8 @@ fn(CV + ':AbbreviationNode.__init__', props=P, trusted=True,
    requires=[],
    ensures=['fresh(self.children)', 'len(self.children) == 0', 'self.attributes is None',
             'implies(node.repeat is None, self.repeat is None)',
-            'implies(node.repeat is not None, self.repeat is not None and fresh(self.repeat))'],
+            'implies(node.repeat is not None, self.repeat is not None and fresh(self.repeat))',
+            'implies(old(state.inserted), state.inserted)'],
    modifies=['self.type', 'self.name', 'self.value', 'self.attributes', 'self.children', 'self.repeat', 'self.self_closing',
              'state.inserted', 'state._text_inserted'],
    allocates=True, **VIEW,
@@ -79,7 +80,9 @@ fn(CV + ':AbbreviationNode.__init__', props=P, trusted=True,
 
 fn(CV + ':convert_attribute', props=P, trusted=True,
    params={'node': 'TokenAttribute', 'state': 'ConvertState'}, returns='AbbreviationAttribute',
-   requires=[], ensures=['fresh(result)'], modifies=['state.inserted', 'state._text_inserted'], allocates=True,
+   requires=[], ensures=['fresh(result)', 'implies(old(state.inserted), state.inserted)'],
+   modifies=['state.inserted', 'state._text_inserted'], allocates=True,
+   stable=['implies(old(state.inserted), state.inserted)'],
    note='attribute values are rendered through stringify() (out of subset)')
 
 fn(CV + ':some', props=P, trusted=True,
@@ -110,6 +113,9 @@ KEPT = ['state.repeaters is old(state.repeaters)', 'len(state.repeaters) == old(
         'forall(0, len(state.repeaters), lambda k: state.repeaters[k].value == old(state.repeaters[k].value))',
         'forall(0, len(state.repeaters), lambda k: state.repeaters[k].implicit == old(state.repeaters[k].implicit))',
         'state.repeat_guard <= old(state.repeat_guard)',
+        # C04 ("at every `$#` placeholder if there are any, otherwise appended once"): once a placeholder has been
+        # met the flag stays set -- nothing converted later may make the text be appended again
+        'implies(old(state.inserted), state.inserted)',
         'node.repeat is old(node.repeat)',
         'same(state.text, old(state.text))', 'same(state.clean_text, old(state.clean_text))',
         'fresh(result)']
@@ -121,14 +127,14 @@ OWN_COUNTER = ['node.repeat is None or (len(state.repeaters) >= 1 and '
                ' state.repeaters[len(state.repeaters) - 1] is node.repeat and '
                ' 0 <= node.repeat.value and node.repeat.value < node.repeat.count)']
 
-fn(CV + ':convert_group', props=P,
+fn(CV + ':convert_group', props=P + ['C04'],
    params={'node': 'CvTokenGroup|CvTokenElement', 'state': 'ConvertState'}, returns='list[AbbreviationNode]',
    requires=OWN_COUNTER, ensures=KEPT, modifies=CV_MOD, allocates=True, **VIEW,
    locals={'result': 'list[AbbreviationNode]'},
    loops={0: {'anchor': 'for child in',
               'invariant': ['_i0 <= len(node.elements)', 'fresh(result)'] + KEPT[:-1]}})
 
-fn(CV + ':convert_element', props=P,
+fn(CV + ':convert_element', props=P + ['C04'],
    params={'node': 'CvTokenElement', 'state': 'ConvertState'}, returns='list[AbbreviationNode]',
    requires=OWN_COUNTER, ensures=KEPT, modifies=CV_MOD, allocates=True, **VIEW,
    locals={'result': 'list[AbbreviationNode]'},
@@ -141,7 +147,7 @@ fn(CV + ':convert_element', props=P,
 define('cv_count', ['rep', 'state'],
        '(len(state.clean_text) if (rep.implicit and isinstance(state.text, list)) else (rep.count if rep.count != 0 else 1))')
 
-fn(CV + ':convert_statement', props=P,
+fn(CV + ':convert_statement', props=P + ['C04', 'C07'],
    params={'node': 'CvTokenElement|CvTokenGroup', 'state': 'ConvertState'}, returns='list[AbbreviationNode]',
    requires=[],
    ensures=KEPT,
@@ -178,7 +184,10 @@ fn(CV + ':convert_statement', props=P,
                             'forall(0, old(len(state.repeaters)), lambda k: state.repeaters[k].value == old(state.repeaters[k].value))',
                             'forall(0, old(len(state.repeaters)), lambda k: state.repeaters[k].implicit == old(state.repeaters[k].implicit))',
                             'state.repeat_guard <= old(state.repeat_guard) - i',
-                            'same(state.text, old(state.text))', 'same(state.clean_text, old(state.clean_text))']}})
+                            'implies(old(state.inserted), state.inserted)',
+                            'same(state.text, old(state.text))', 'same(state.clean_text, old(state.clean_text))'],
+              # C07 ("expand() terminates"): every iteration completes a copy and moves on to the next one
+              'decreases': 'repeat.count - i'}})
 
 
 # `$#`: the wrapped line of the closest implicit repeater (C04: "each containing that trimmed line verbatim - at
